@@ -112,7 +112,7 @@ def get_type_graph(t: type) -> graphlib.TopologicalSorter[TypeNode]:
     u = inspection.unwrap(t)
     root = TypeNode(t, u)
     stack = collections.deque([root])
-    visited = {root.type}
+    visited = {root.type, root.unwrapped}
     while stack:
         parent = stack.popleft()
         parent_unwrapped = inspection.unwrap(parent.type)
@@ -165,6 +165,7 @@ def get_type_graph(t: type) -> graphlib.TopologicalSorter[TypeNode]:
             else:
                 node = TypeNode(type=child, unwrapped=unwrapped, var=var)
                 visited.add(node.type)
+                visited.add(node.unwrapped)
                 stack.append(node)
             # Flag the type as a "predecessor" of the parent type.
             #   This lets us resolve child types first when we iterate over the graph.
